@@ -100,19 +100,19 @@ func (defaultSharedInitializeCaller) Call(s *slip.Scope, args slip.List, depth i
 			nameMap[sd.name] = k
 		}
 	}
-	for k, v := range obj.Type.defaultsMap() {
+	for _, da := range obj.Type.allDefaultInitArgs() {
 		var (
 			dv        slip.Object
 			evaluated bool
 		)
-		for _, sd := range obj.Type.initArgDefs(k) {
+		for _, sd := range obj.Type.initArgDefs(da.key) {
 			if _, has := nameMap[sd.name]; !has {
-				if !evaluated && v != nil {
-					dv = v.Eval(s, depth+1)
+				if !evaluated && da.form != nil {
+					dv = da.form.Eval(s, depth+1)
 				}
 				evaluated = true
 				obj.setSlot(s, sd, dv, depth)
-				nameMap[sd.name] = k
+				nameMap[sd.name] = da.key
 			}
 		}
 	}
